@@ -113,7 +113,7 @@ func (r *vfUdpRun) mk(id int, size int, decl string, cut string) vfUdpDg {
 	case "larger":
 		declared = bl + 1 + r.rnd.Intn(3000)
 	case "muchlarger":
-		declared = bl + 40000 + r.rnd.Intn(20000)
+		declared = bl + 24000 + r.rnd.Intn(20000)
 	case "smaller":
 		if bl > 0 {
 			declared = r.rnd.Intn(bl)
